@@ -27,7 +27,7 @@ RULE = ('cases = (handler declarations through the real decorators x cause/objec
         'declaration of the same kind on the same state, or from its own verdict on another state of the sweep; distinct by '
         '(declaration, state) after canonicalisation')
 
-HEADER = fw.STD_HEADER + '''From KV Require Import Base.Dicts Model.Match.
+HEADER = fw.STD_HEADER + '''From KV Require Import Base.Dicts Model.Match Model.MatchCycle.
 Definition kv_attrs (h : hdecl) :=
   (h_id h, (h_class h, (h_reason h, (h_initial h, (h_deleted h, (h_requires_finalizer h, h_needs_change h)))))).
 Definition kv_hclass_eqb (a b : hclass) : bool :=
@@ -270,16 +270,17 @@ def decl_coq(d: dict) -> str:
 class Real:
     """A real kopf registry populated through the real decorators from declarations."""
 
-    def __init__(self, decls: list[dict], recorder: list | None = None) -> None:
+    def __init__(self, decls: list[dict], recorder: list | None = None, fail_fns: Iterable[int] = ()) -> None:
         import kopf
         from kopf._core.intents import registries
         self.registry = registries.OperatorRegistry()
         self.fns: dict[int, Callable] = {}
         self.decls = decls
+        self.fail_fns = frozenset(fail_fns)
         for d in decls:
             fn = self.fns.get(d['fn'])
             if fn is None:
-                fn = self.fns[d['fn']] = self._mkfn(d['fn'], recorder)
+                fn = self.fns[d['fn']] = self._mkfn(d['fn'], recorder, d['fn'] in self.fail_fns)
             args, kw = _sel_real(d['sel'])
             kw = dict(kw, registry=self.registry, id=d['id'], when=_when_real(d['when']), field=d['field'],
                       value=_crit_real(d['value']),
@@ -315,10 +316,13 @@ class Real:
             dec(fn)
 
     @staticmethod
-    def _mkfn(i: int, recorder: list | None) -> Callable:
+    def _mkfn(i: int, recorder: list | None, failing: bool = False) -> Callable:
         async def handler_fn(**kwargs: Any) -> None:
             if recorder is not None:
-                recorder.append((i, kwargs.get('reason'), kwargs.get('old'), kwargs.get('new')))
+                recorder.append((i, kwargs.get('reason'), kwargs.get('old'), kwargs.get('new'), 'event' in kwargs))
+            if failing:
+                import kopf
+                raise kopf.TemporaryError('scripted failure', delay=5)
         handler_fn.__name__ = handler_fn.__qualname__ = f'fn{i}'
         return handler_fn
 
@@ -1081,7 +1085,7 @@ def run_case(ctx: fw.Ctx, decls: list[dict], s: dict, excluded: tuple[str, ...] 
 def run(ctx: fw.Ctx) -> int:
     ctx.matchers = {'F15a': match_f15a}
     ctx.proofs()
-    ok, logtxt = fw.build_models(['Model/Match.v'])
+    ok, logtxt = fw.build_models(['Model/Match.v', 'Model/MatchCycle.v'])
     if not ok:
         ctx.correspondence_break('model build', logtxt[-1500:])
         return ctx.finish(RULE)
@@ -1110,7 +1114,7 @@ def run(ctx: fw.Ctx) -> int:
                 sw.run_state(state(cls, b))
     ctx.count('pairs', 'meta', len(md) * len(bodies))
     ctx.sample({'sweep': 'meta', 'decl': md[37], 'state_body': bodies[5]})
-    ctx.differential('meta', sw.header, sw.cases, shard=80)
+    ctx.differential('meta', sw.header, sw.cases, shard=120)
     sweeps = [sw]
 
     # malformed metadata: the raising paths, one handler at a time
@@ -1145,7 +1149,7 @@ def run(ctx: fw.Ctx) -> int:
     sd = fd if ctx.thorough else fd[::6]
     ss = [s for i, s in enumerate(fs) if i % (29 if ctx.thorough else 19) == 0 or s['cls'] != 'changing']
     ctx.differential('field1', HEADER, single_cases(ctx, sd, ss), shard=150)
-    ctx.differential('decorators', HEADER, attrs, shard=200)
+    ctx.differential('decorators', HEADER, attrs if ctx.thorough else attrs[::2], shard=200)
     sweeps.append(sw2)
     # ---------- bounded-exhaustive sweep 3: falsy criteria (0, False, '', [], {}) x falsy field values ----------
     zd = falsy_decls()
@@ -1171,7 +1175,7 @@ def run(ctx: fw.Ctx) -> int:
                 for order in DEDUP_ORDERS:
                     decls = dedup_registry(order, ks, b, cls)
                     for j, s in enumerate(dedup_states(cls)):
-                        if not ctx.thorough and cls == 'changing' and (j + len(order) + DEDUP_B.index(b)) % 2:
+                        if not ctx.thorough and cls == 'changing' and (j + len(order) + DEDUP_B.index(b)) % 3:
                             continue
                         dd += run_case(ctx, decls, s, name='dedup', only_get=True)
                         ctx.count('dedup', f"{cls}:{''.join(order)}")
@@ -1197,6 +1201,9 @@ def run(ctx: fw.Ctx) -> int:
         if i < 2:
             ctx.sample({'sweep': 'random', 'decls': decls, 'state': s, 'excluded': list(excluded)})
     ctx.differential('random', HEADER, rnd, shard=120)
+
+    # ---------- the decision skeleton of process_resource_causes against the real coroutine ----------
+    cycle_tie(ctx, ctx.scale(500, 6000))
 
     # ---------- end to end: process_resource_event with a recording API ----------
     e2e(ctx, ctx.scale(250, 2500))
@@ -1252,6 +1259,233 @@ async def _one_event(real: Real, res: dict, raw_type: Any, body: dict, writes: l
             raw_event={'type': raw_type, 'object': copy.deepcopy(body)}, event_queue=asyncio.Queue(), no_throttling=True)
     finally:
         api.patch = saved
+
+
+# --------------------------------------------------------------------------------------------------
+# D-tie of Model/MatchCycle.v: the real process_resource_causes with recording handlers; only the daemon machinery
+# (spawn/match/pause/stop_daemons) is replaced by recorders, nothing else
+# --------------------------------------------------------------------------------------------------
+async def _drive_causes(real: Real, res: dict, body: dict, raw_type: Any, *, noticed: bool, forever: list[str],
+                        carried: dict, spawn_delays: list[float], recorder: list) -> dict:
+    import kopf
+    from kopf._cogs.configs import configuration
+    from kopf._cogs.structs import bodies, finalizers, patches
+    from kopf._core.actions import loggers
+    from kopf._core.engines import daemons, posting
+    from kopf._core.engines.indexing import OperatorIndexers
+    from kopf._core.reactor import inventory, processing
+
+    settings = configuration.OperatorSettings()
+    settings.persistence.finalizer = FINALIZER
+    memory = inventory.ResourceMemory(noticed_by_listing=noticed)
+    memory.daemons_memory.forever_stopped = set(forever)
+    b = bodies.Body(copy.deepcopy(body))
+    patch = patches.Patch(copy.deepcopy(carried), body=b)
+    obs: dict = {'spawn': None, 'stopped': False, 'cause': None, 'changing_ran': False}
+
+    async def spawn_daemons(*, handlers: Any, **_: Any) -> list:
+        obs['spawn'] = [h.id for h in handlers]
+        return []
+
+    async def match_daemons(**_: Any) -> list:
+        return list(spawn_delays)
+
+    async def pause_daemons(**_: Any) -> list:
+        return []
+
+    async def stop_daemons(**_: Any) -> list:
+        obs['stopped'] = True
+        return list(spawn_delays)
+
+    real_detect = processing._detect_causes
+    real_changing = processing.process_changing_cause
+
+    def detect(**kw: Any) -> Any:
+        out = real_detect(**kw)
+        obs['cause'] = out.changing_cause
+        return out
+
+    async def changing(**kw: Any) -> Any:
+        obs['changing_ran'] = True
+        return await real_changing(**kw)
+
+    saved = (daemons.spawn_daemons, daemons.match_daemons, daemons.pause_daemons, daemons.stop_daemons)
+    daemons.spawn_daemons, daemons.match_daemons, daemons.pause_daemons, daemons.stop_daemons = \
+        spawn_daemons, match_daemons, pause_daemons, stop_daemons
+    processing._detect_causes, processing.process_changing_cause = detect, changing
+    posting.event_queue_loop_var.set(asyncio.get_running_loop())
+    posting.event_queue_var.set(asyncio.Queue())
+    try:
+        try:
+            delays, matched = await processing.process_resource_causes(
+                lifecycle=kopf.lifecycles.all_at_once, indexers=OperatorIndexers(), registry=real.registry, settings=settings,
+                resource=_res_real(res), raw_event={'type': raw_type, 'object': body}, body=b, patch=patch, memory=memory,
+                local_logger=loggers.LocalObjectLogger(body=b, settings=settings),
+                event_logger=loggers.LocalObjectLogger(body=b, settings=settings),
+                stream_pressure=None, operator_paused=None, consistency_time=None)
+            obs['outcome'] = 'ok'
+            obs['matched'] = bool(matched)
+            obs['delays'] = bool(delays)
+        except (TypeError, AttributeError, KeyError, ValueError) as e:
+            obs['outcome'] = canon.classify_exc(e)
+    finally:
+        daemons.spawn_daemons, daemons.match_daemons, daemons.pause_daemons, daemons.stop_daemons = saved
+        processing._detect_causes, processing.process_changing_cause = real_detect, real_changing
+    obs['fns'] = ['B' if getattr(f, 'func', None) is finalizers.block_deletion else
+                  'A' if getattr(f, 'func', None) is finalizers.allow_deletion else '?' for f in patch.fns]
+    obs['patch'] = copy.deepcopy(dict(patch))
+    obs['wcalls'] = [x[0] for x in recorder if x[4]]
+    obs['ccalls'] = [x[0] for x in recorder if not x[4]]
+    return obs
+
+
+CYCLE_KINDS = ('create', 'update', 'delete', 'delete_opt', 'resume', 'resume_del', 'field', 'event', 'event', 'daemon', 'timer')
+
+
+def gen_cycle(r: Any) -> dict:
+    decls: list[dict] = []
+    for j in range(r.choice([1, 2, 2, 3, 4, 5])):
+        kind = r.choice(CYCLE_KINDS)
+        d = decl(kind, f'q{j}', j, sel=copy.deepcopy(r.choice([SEL_KEX] * 5 + [['any', 'widgets']])))
+        how = r.randrange(7)
+        if how == 0:
+            d['labels'] = {'l1': gen_crit(r, ['PRESENT', ['val', 'v'], 'ABSENT'])}
+        elif how == 1:
+            d['annotations'] = {'a1': gen_crit(r, ['PRESENT', ['val', 'v'], 'ABSENT'])}
+        elif how == 2:
+            d['when'] = r.choice(['F', ['spec_eq', 'g', 1]])
+        elif how == 3:
+            d['field'] = 'spec.f'
+            if kind in UPDATE_KINDS and r.random() < 0.5:
+                d['new'] = gen_crit(r, [['val', 1], ['val', 0], 'PRESENT', 'ABSENT'])
+            else:
+                d['value'] = gen_crit(r, [None, ['val', 1], 'PRESENT', 'ABSENT'])
+        decls.append(d)
+    meta: dict = {'name': 'x', 'namespace': 'ns', 'uid': 'u1', 'resourceVersion': '5'}
+    if r.random() < 0.5:
+        meta['labels'] = {'l1': r.choice(['v', 'w'])}
+    if r.random() < 0.3:
+        meta['annotations'] = {'a1': 'v'}
+    if r.random() < 0.45:
+        meta['finalizers'] = r.choice([[FINALIZER], ['other/fin'], ['other/fin', FINALIZER], []])
+    if r.random() < 0.3:
+        meta['deletionTimestamp'] = '2020-01-01T00:00:00Z'
+    if r.random() < 0.03:
+        meta['finalizers'] = r.choice([None, 5])
+    spec: dict = {'g': r.choice([0, 1])}
+    if r.random() < 0.6:
+        spec['f'] = r.choice([0, 1, 2])
+    body = {'apiVersion': 'kopf.dev/v1', 'kind': 'KopfExample', 'metadata': meta, 'spec': spec}
+    if r.random() < 0.02:
+        body['metadata'] = None
+    handled = None
+    if r.random() < 0.55 and isinstance(body['metadata'], dict):
+        # handled before: a last-handled essence in the annotation, equal to or different from the current one
+        prev = copy.deepcopy(body)
+        how = r.randrange(3)
+        if how == 1:
+            prev['spec']['g'] = 7
+        elif how == 2:
+            prev['spec'].pop('f', None) if 'f' in prev['spec'] else prev['spec'].update(f=5)
+        handled = prev
+    spawning_ids = [real_id(d) for d in decls if KIND_CLASS[d['kind']] == 'spawning']
+    return {'decls': decls, 'body': body, 'handled': handled,
+            'event': r.choice([None, 'ADDED', 'MODIFIED', 'MODIFIED', 'DELETED']), 'noticed': r.random() < 0.4,
+            'forever': sorted(set(x for x in spawning_ids if r.random() < 0.3)),
+            'carried': {} if r.random() < 0.8 else {'status': {'carried': 1}},
+            'spawn_delays': [] if r.random() < 0.7 else [3.0],
+            'fail': sorted(set(d['fn'] for d in decls if r.random() < 0.15))}
+
+
+def _with_last_handled(body: dict, prev: dict | None, extra_fields: set) -> dict:
+    """The body as the server would have it after kopf stored `prev`'s essence as the last-handled configuration."""
+    if prev is None:
+        return body
+    from kopf._cogs.configs import configuration
+    from kopf._cogs.structs import bodies, patches
+    st = configuration.OperatorSettings().persistence.diffbase_storage
+    essence = st.build(body=bodies.Body(prev), extra_fields=extra_fields)
+    p = patches.Patch()
+    st.store(body=bodies.Body(body), patch=p, essence=essence)
+    return canon.merge7386(body, dict(p))
+
+
+def cycle_case(ctx: fw.Ctx, loop: Any, c: dict) -> fw.Case | None:
+    decls = c['decls']
+    recorder: list = []
+    real = Real(decls, recorder, fail_fns=c['fail'])
+    extra = set()
+    for reg in (real.registry._watching, real.registry._changing, real.registry._spawning):
+        extra |= reg.get_extra_fields(resource=_res_real(RES_KEX))
+    body = _with_last_handled(c['body'], c['handled'], extra) if isinstance(c['body'].get('metadata'), dict) else c['body']
+    obs = loop.run_until_complete(asyncio.wait_for(_drive_causes(
+        real, RES_KEX, body, c['event'], noticed=c['noticed'], forever=c['forever'], carried=c['carried'],
+        spawn_delays=c['spawn_delays'], recorder=recorder), 30))
+    cause = obs['cause']
+    reason = cause.reason.value if cause is not None else 'noop'
+    o = lambda v: 'None' if v is None else f'(Some {cq.cjson(dict(v))})'
+    by = lambda cls: cq.clist(decl_coq(d) for d in decls if KIND_CLASS[d['kind']] == cls)
+    g = f"{{| g_watching := {by('watching')}; g_spawning := {by('spawning')}; g_changing := {by('changing')} |}}"
+    i = (f"{{| i_resource := {_res_coq(RES_KEX)}; i_body := {cq.cjson(body)}; "
+         f"i_old := {o(cause.old if cause is not None else None)}; i_new := {o(cause.new if cause is not None else None)}; "
+         f"i_reason := R{reason.capitalize()}; i_initial := {cq.cbool(bool(cause.initial) if cause is not None else False)}; "
+         f"i_finalizer := {cq.cstr(FINALIZER)}; i_deleted_event := {cq.cbool(c['event'] == 'DELETED')}; "
+         f"i_forever_stopped := {cq.clist(cq.cstr(x) for x in c['forever'])}; i_patch_empty := {cq.cbool(not c['carried'])}; "
+         f"i_achieved := true; i_spawn_delays := {cq.cbool(bool(c['spawn_delays']))}; "
+         f"i_change_delays := delays_if_any {cq.clist(cq.cnat(x) for x in c['fail'])} |}}")
+    nl = lambda l: cq.clist(cq.cnat(x) for x in l)
+    if obs['outcome'] == 'ok':
+        sp = 'None' if obs['spawn'] is None else f"(Some {cq.clist(cq.cstr(x) for x in obs['spawn'])})"
+        ch = f"(Some {nl(obs['ccalls'])})" if obs['changing_ran'] else 'None'
+        fns = cq.clist({'B': 'FBlock', 'A': 'FAllow'}[x] for x in obs['fns'])
+        exp = f"(Ok ({nl(obs['wcalls'])}, {sp}, {fns}, {ch}, {cq.cbool(obs['matched'])}))"
+    else:
+        exp = canon.cres(obs['outcome'])
+    data = {**c, 'body': body, 'observed': {k: obs.get(k) for k in ('outcome', 'wcalls', 'spawn', 'stopped', 'fns', 'ccalls',
+                                                                    'changing_ran', 'matched', 'delays')}, 'reason': reason}
+    ctx.count('cycle_reason', reason if cause is not None else 'no changing handlers')
+    ctx.count('cycle_fns', ''.join(obs['fns']) or '-')
+    ctx.count('cycle_outcome', obs['outcome'])
+    if obs['outcome'] == 'ok':
+        ctx.count('cycle_changing', 'ran:%d' % min(len(obs['ccalls']), 3) if obs['changing_ran'] else 'not run')
+        ctx.count('cycle_watching', str(min(len(obs['wcalls']), 3)))
+        ctx.count('cycle_spawning', 'stop_daemons' if obs['stopped'] else 'no cause' if obs['spawn'] is None else
+                  'spawn:%d' % len(obs['spawn']))
+        ctx.count('cycle_delays', f"spawn={bool(c['spawn_delays'])},returned={obs['delays']}")
+        # the only writers of merge-patch content in this routine are the invoked watching handlers (results) and
+        # process_changing_cause; if neither ran, the patch content is what was carried
+        if not obs['wcalls'] and not obs['changing_ran'] and obs['patch'] != c['carried']:
+            ctx.fail('patch content written although no watching handler was invoked and the changing cause was not processed',
+                     {'decls': decls, 'body': body, 'event': c['event']}, observed=obs['patch'], expected=c['carried'],
+                     sig='cycle-writes')
+        if '?' in obs['fns']:
+            ctx.correspondence_break('cycle: unknown patch function', obs['fns'])
+        if obs['changing_ran'] or obs['wcalls'] or obs['fns']:
+            ctx.nontriv(['cycle', decls, body, c['event']])
+    return fw.Case(f'rcycle_eqb (cycle {g} {i}) {exp}', data, diag=f'cycle_show (cycle {g} {i})')
+
+
+def cycle_tie(ctx: fw.Ctx, n: int) -> None:
+    r = ctx.rng
+    loop = asyncio.new_event_loop()
+    cases: list[fw.Case] = []
+    try:
+        for k in range(n):
+            c = gen_cycle(r)
+            try:
+                case = cycle_case(ctx, loop, c)
+            except cq.Unencodable:
+                continue
+            except Exception as e:      # an observation point disappeared or the routine failed in an unmodelled way
+                ctx.correspondence_break('cycle:process_resource_causes', {'error': repr(e)[:400], 'case': c})
+                break
+            if case is not None:
+                cases.append(case)
+            if k == 0:
+                ctx.sample({'sweep': 'cycle', **case.data}, limit=9)
+    finally:
+        loop.close()
+    ctx.differential('cycle', HEADER, cases, shard=120)
 
 
 E2E_KINDS = ('create', 'update', 'delete_opt', 'delete', 'resume', 'resume_del', 'field', 'event', 'daemon', 'timer')
@@ -1354,6 +1588,9 @@ def e2e_one(ctx: fw.Ctx, loop: Any, decls: list[dict], body: dict, raw_type: Any
             ctx.fail('an object matched by no handler was touched (annotation/finaliser added or a handler called)', case,
                      observed={'writes': writes, 'annotations_added': added_ann, 'finalizers_added': added_fin,
                                'called': calls}, expected='no annotation, no finaliser, no call', sig='stealth')
+        if FINALIZER in f0 and FINALIZER in f1:
+            ctx.fail('an object matched by no handler keeps the operator\'s (stale) finaliser', case,
+                     observed={'writes': writes, 'finalizers_after': f1}, expected='own finaliser removed', sig='stealth-finalizer')
         if any(k != 'metadata' for _, p in writes if isinstance(p, dict) for k in p):
             ctx.fail('an object matched by no handler got a write outside metadata', case, observed=writes, sig='stealth')
     else:
